@@ -97,6 +97,7 @@ func (wk *worker) runCase(c *Case) (res CaseResult) {
 		return res
 	}
 	res.OK = true
+	defer curWorld.Store((*world)(nil))
 
 	// reference: every resolver synchronous
 	doServe := serve
@@ -218,7 +219,7 @@ func (wk *worker) runCase(c *Case) (res CaseResult) {
 		count("later-wave-batch-call-with-2+-items(nested coalescing)")
 	}
 	nDep := 0
-	for _, ev := range w.events {
+	for _, ev := range w.eventLog() {
 		if (ev.kind == "go" || ev.kind == "batch") && ev.dep >= 0 {
 			nDep++
 		}
@@ -332,10 +333,10 @@ func (wk *worker) runCase(c *Case) (res CaseResult) {
 	}
 
 	// ---- correspondence with the Lean model (acceptor)
-	if wk.model != nil && w.execs > 1 {
+	if wk.model != nil && w.execs > 1 && !hookMode {
 		count("model-not-consulted(several executions share one apiRequest)")
 	}
-	if wk.model != nil && w.execs <= 1 {
+	if wk.model != nil && (w.execs <= 1 || hookMode) {
 		res.CorrRan = true
 		s := w.synthesize()
 		line := "(run fixed " + strings.Join(s.labels, " ") + ")"
@@ -378,6 +379,7 @@ func (wk *worker) runCase(c *Case) (res CaseResult) {
 
 // workerMain: one JSON case per input line, one JSON CaseResult per output line.
 func workerMain(modelPath string, detail bool) {
+	installHook()
 	theAPI = buildAPI()
 	wk := &worker{ignore: map[string]bool{}, detail: detail, f02aPresent: probeF02a()}
 	if modelPath != "" {
